@@ -223,6 +223,12 @@ func runCase(cs *Case, quick bool) (fs []finding, stt caseStats) {
 			}
 			if ev.failed {
 				// a node on the executed path fails: every paradigm must report a failure
+				if !o.failed() && ev.refused != "" {
+					add(sh.feat+"/refused-run/"+paradigm+"/not-reported",
+						fmt.Sprintf("%s: %s (Invoke refuses such a run) but no failure was reported: no call error, no error item, %d chunk(s), value %s",
+							where, ev.refused, o.chunks, canon(o.val)))
+					return
+				}
 				if !o.failed() {
 					add(sh.feat+"/failing-node/"+paradigm+"/not-reported",
 						fmt.Sprintf("%s: node %s fails (%s) but no failure was reported: no call error, no error item, %d chunk(s), value %s",
